@@ -626,9 +626,10 @@ class EngineOutcome:
         self.env = None
         self.lib_used = []
         self.side_failed = []
+        self.side_pending = []
 
 
-def run_engine(module, fname, case, prop, extern=None, symlen=False):
+def run_engine(module, fname, case, prop, extern=None, symlen=False, engine_call=None):
     lib = vc.lib_for(prop)
     lib.activate()
     if extern:
@@ -644,8 +645,11 @@ def run_engine(module, fname, case, prop, extern=None, symlen=False):
         out.env = env
         try:
             args = [env.arg(a) for a in case]
-            fv = I.FuncVal(module, module.defs[fname])
-            out.value = it.call_function(fv, args, {})
+            if engine_call is not None:
+                out.value = engine_call(it, *args)       # a contract stated outside the library tables (contracts/C08: scipy)
+            else:
+                fv = I.FuncVal(module, module.defs[fname])
+                out.value = it.call_function(fv, args, {})
             out.kind = "ret"
         except I.PyRaise as e:
             import builtins as _bi
@@ -683,13 +687,7 @@ def run_engine(module, fname, case, prop, extern=None, symlen=False):
                 except Unbound:
                     ok = None
                 if ok is None:
-                    s_ = z3.Solver()
-                    s_.set("timeout", 3000)
-                    for f in list(st.facts) + list(so.pc):
-                        s_.add(f)
-                    s_.add(z3.Not(so.cond))
-                    if s_.check() == z3.sat:
-                        ok = False
+                    out.side_pending.append(so)       # mentions result symbols: decided by the solver, or after binding them (rel)
                 if ok is False:
                     out.side_failed.append(so.kind)
         out.lib_used = sorted(it.lib_used)
@@ -965,8 +963,23 @@ class Comparer:
 EXC_ALIASES = {"UFuncTypeError": {"UFuncTypeError", "TypeError", "_UFuncOutputCastingError"}, "FrozenInstanceError": {"FrozenInstanceError", "AttributeError"}}
 
 
+def _decide_pending_sides(eo):
+    """side obligations that are not ground: fail if their negation is satisfiable under the path assumptions"""
+    for so in eo.side_pending:
+        s_ = z3.Solver()
+        s_.set("timeout", 3000)
+        for f in list(eo.state.facts) + list(so.pc):
+            s_.add(f)
+        s_.add(z3.Not(so.cond))
+        if s_.check() == z3.sat:
+            eo.side_failed.append(so.kind)
+    eo.side_pending = []
+
+
 def compare_case(sn, eo, real, case=None):
     """-> (status, details)   status: agree | DISAGREE | not-modelled"""
+    if not (sn.get("binder") and "exc" not in real):
+        _decide_pending_sides(eo)
     if eo.kind == "not-modelled":
         return "not-modelled", [eo.msg]
     if eo.kind == "fault":
@@ -1132,7 +1145,7 @@ def rel_check(sn, eo, cmpr, pl):
     bind = dict(eo.env.bind)
     if sn.get("binder"):
         bind.update(sn["binder"](eo, cmpr.real, pl) or {})
-    ze = ZEval(bind)
+    ze = ZEval(bind, tol=sn.get("fact_tol", 1e-9))
     notes = []
     equations = []       # (term, real value): terms that are not plain applications of a result symbol
 
@@ -1184,6 +1197,14 @@ def rel_check(sn, eo, cmpr, pl):
         pl2 = Plainer(st, bind)
         for path2, obj2, r2 in sub.deferred:
             cmpr.d(path2, "nested symbolic shape")
+    if cmpr.diffs:
+        return
+    for so in eo.side_pending:
+        try:
+            if not ze(so.cond):
+                cmpr.d("side obligation", f"{so.kind} is false for the real output (the contract's precondition would reject this call)")
+        except Unbound:
+            notes.append(f"side obligation {so.kind} not evaluable after binding")
     if cmpr.diffs:
         return
     # ---- the assumed facts
@@ -1248,7 +1269,7 @@ def rel_check(sn, eo, cmpr, pl):
             cmpr.d("fact", f"{label} is FALSE on the real output: {str(z3.simplify(f))[:200]}")
     if (need_solver or equations) and not cmpr.diffs:
         s = z3.Solver()
-        s.set("timeout", 30000)
+        s.set("timeout", int(sn.get("solver_ms", 4000)))
         forms = [f for _, f in need_solver]
         for term, val in equations:
             if isinstance(val, list):
@@ -1286,7 +1307,7 @@ def rel_check(sn, eo, cmpr, pl):
         elif r == z3.sat:
             nchecked += len(need_solver) + len(equations)
         else:
-            notes.append(f"{len(need_solver)} facts with auxiliary symbols / {len(equations)} equations: solver answered {r} ({s.reason_unknown()})")
+            notes.append(f"SOLVER-UNKNOWN: {len(need_solver)} facts with auxiliary symbols / {len(equations)} equations: solver answered {r} ({s.reason_unknown()})")
     cmpr.notes = [f"{nchecked} assumed facts / result equations hold on the real output"] + notes
 
 
@@ -1414,7 +1435,7 @@ def run_snippet(job):
     for p, mode in itertools.product(props, modes):
         for ci, (case, real) in enumerate(zip(sn["cases"], real_cases)):
             try:
-                eo = run_engine(module, "f", case, p, extern, symlen=(mode == "sym"))
+                eo = run_engine(module, "f", case, p, extern, symlen=(mode == "sym"), engine_call=sn.get("engine_call"))
                 status, detail = compare_case(sn, eo, real, case)
                 used = eo.lib_used
             except Exception as e:      # a fault of the harness or of the engine (not an EngineError): reported, never silent
@@ -1494,6 +1515,7 @@ def main():
         results = [run_snippet(j) for j in jobs]
     # ---- report
     counts = {"agree": 0, "DISAGREE": 0, "not-modelled": 0, "limitation": 0}
+    solver_unknown = []
     by_func = {}
     bad, lim, nm = [], [], []
     lib_used_seen = set()
@@ -1501,6 +1523,8 @@ def main():
         sts = {x["status"] for x in r["runs"]}
         for x in r["runs"]:
             counts[x["status"]] += 1
+            if x["status"] == "agree" and any("SOLVER-UNKNOWN" in str(d) for d in x["detail"]):
+                solver_unknown.append(r["id"])
             lib_used_seen.update(x.get("lib_used") or [])
             if x["status"] == "DISAGREE":
                 bad.append((r["id"], x))
@@ -1540,6 +1564,9 @@ def main():
         grouped.setdefault((sid, x["case"], " | ".join(str(d) for d in x["detail"][:3])[:700]), []).append(x["table"])
     for (sid, case, det), tabs in grouped.items():
         print(f"DISAGREE {sid} [case {case}; tables {','.join(tabs)}]: {det}")
+    if solver_unknown:
+        print(f"[libcheck] structural agreement only (the solver did not decide the assumed facts with auxiliary symbols within its budget): "
+              f"{len(solver_unknown)} runs of {', '.join(sorted(set(solver_unknown)))}")
     if args.verbose:
         slow = sorted(results, key=lambda r: -r.get("ms", 0))[:8]
         print("[libcheck] slowest snippets: " + ", ".join(f"{r['id']} {r.get('ms', 0)} ms" for r in slow))
